@@ -1,6 +1,7 @@
 (* Reader family, C19: partial trees -- a printed tree cut at a token boundary, inside a
-   separator (whitespace run, line comment, discard), inside a tag, or inside a string-like leaf
-   whose prefix reads on its own as a premature end. *)
+   separator (whitespace run, line comment, discard), inside a tag, inside a string-like leaf
+   whose prefix reads on its own as a premature end, or inside a replacement field of an f-string
+   (before its form is complete, or after the form and before the colon or the closing brace). *)
 From HyV Require Import Base.Text Reader.Syntax Gen.ReaderTables Reader.Model Reader.Progress Reader.Mono Reader.Shape Reader.Suffix Reader.Extend Reader.Concat Reader.Cst Reader.Steps Reader.Roundtrip.
 From Coq Require Import Lia.
 
@@ -13,6 +14,8 @@ Inductive ptail :=
 | TDis (pe : pend)           (* after "#_": the discarded form is not complete *)
 | TLeaf (p : text)           (* inside a string-like leaf: p alone reads as Premature *)
 | TForm (pc : pcst)          (* inside a compound form *)
+| TFld (lit : text) (pe : pend)                       (* f DQ lit { : inside a replacement field, its form not complete *)
+| TFldHead (lit : text) (s : sep) (c : cst) (tl : text)  (* f DQ lit { form : after the form, before the : or the closing brace *)
 with pend := PEnd (s : sep) (t : ptail)
 with pcst :=
 | PSeq (k : skind) (its : items) (pe : pend)
@@ -25,6 +28,21 @@ with pend_mut := Induction for pend Sort Prop
 with pcst_mut := Induction for pcst Sort Prop.
 Combined Scheme ptail_pend_pcst_ind from ptail_mut, pend_mut, pcst_mut.
 
+Definition fopen : text := [c_f; c_dq].
+(* literal text of an f-string without braces, backslashes or quotes *)
+Definition plain_char (c : N) : bool := negb ((c =? c_lbrace) || (c =? c_rbrace) || (c =? c_bslash) || (c =? c_dq)).
+Fixpoint all_ws (w : text) : bool := match w with [] => true | c :: r => is_ws c && all_ws r end.
+(* what may stand between the form of a replacement field and its : or closing brace, the input ending there:
+   ws* [= ws*] [! [char ws*]] *)
+Definition conv_part (t : text) : bool :=
+  match t with
+  | [] => true
+  | c :: r => (c =? c_bang) && match r with [] => true | _ :: w => all_ws w end
+  end.
+Definition fhead (t : text) : bool :=
+  let t1 := slurp t in
+  conv_part t1 || match t1 with c :: r => (c =? c_eq) && conv_part (slurp r) | [] => false end.
+
 Fixpoint render_ptail (t : ptail) : text :=
   match t with
   | TEnd => []
@@ -33,6 +51,8 @@ Fixpoint render_ptail (t : ptail) : text :=
   | TDis pe => dis_key ++ render_pend pe
   | TLeaf p => p
   | TForm pc => render_p pc
+  | TFld lit pe => fopen ++ lit ++ c_lbrace :: render_pend pe
+  | TFldHead lit s c tl => fopen ++ lit ++ c_lbrace :: render_sep s ++ render c ++ tl
   end
 with render_pend (pe : pend) : text := match pe with PEnd s t => render_sep s ++ render_ptail t end
 with render_p (pc : pcst) : text :=
@@ -62,6 +82,13 @@ Section PW.
     | TDis pe => ends_opt (hd_opt (render_pend pe)) && pwf_pend pe
     | TLeaf p => leaf_open p
     | TForm pc => pwf pc
+    | TFld lit pe =>
+        forallb plain_char lit && negb (match render_pend pe with d :: _ => d =? c_lbrace | [] => false end)
+        && match decode orc false (norm_nl false lit) with Some _ => true | None => false end && pwf_pend pe
+    | TFldHead lit s c tl =>
+        forallb plain_char lit && negb (match render_sep s ++ render c with d :: _ => d =? c_lbrace | [] => false end)
+        && match decode orc false (norm_nl false lit) with Some _ => true | None => false end
+        && wf_sep orc s (fst_of (render c) None) && wf orc c (fst_of tl None) && fhead tl
     end
   with pwf_pend (pe : pend) : bool :=
     match pe with PEnd s t => wf_sep orc s (fst_of (render_ptail t) None) && pwf_tail t end
